@@ -195,7 +195,7 @@ func runHistory(c *lib.Ctx, p hparams, kinds map[string]int) (evs []hevent) {
 }
 
 func histories(c *lib.Ctx, dir string) error {
-	nh, steps := c.Pick(40, 400), c.Pick(150, 300)
+	nh, steps := c.Pick(40, 400), c.Pick(200, 300)
 	ps := make([]hparams, nh)
 	levels := []int{0, 1, 2, 5, 6}
 	for h := range ps {
